@@ -85,11 +85,18 @@ func c12ClientCheck(ctx *vfCtx, c c12ClientCase) {
 	for i, d := range c.Docs {
 		docs = append(docs, c12DocJSON(i, d))
 	}
+	var asked map[string]map[string]json.RawMessage // the notary query as it arrived
 	srv := httptest.NewUnstartedServer(http.HandlerFunc(func(rw http.ResponseWriter, req *http.Request) {
 		rw.Header().Set("Content-Type", "application/json")
 		if req.URL.Path == "/_matrix/key/v2/server" {
 			_ = json.NewEncoder(rw).Encode(docs[0])
 			return
+		}
+		var body struct {
+			ServerKeys map[string]map[string]json.RawMessage `json:"server_keys"`
+		}
+		if json.NewDecoder(req.Body).Decode(&body) == nil {
+			asked = body.ServerKeys
 		}
 		_ = json.NewEncoder(rw).Encode(map[string]any{"server_keys": docs})
 	}))
@@ -101,8 +108,13 @@ func c12ClientCheck(ctx *vfCtx, c c12ClientCase) {
 	bg, cancel := context.WithTimeout(context.Background(), 10*time.Second)
 	defer cancel()
 	ask := map[gomatrixserverlib.PublicKeyLookupRequest]spec.Timestamp{}
-	for _, d := range c.Docs {
+	for i, d := range c.Docs {
 		ask[gomatrixserverlib.PublicKeyLookupRequest{ServerName: spec.ServerName(d.Server), KeyID: "ed25519:a"}] = 0
+		if i%2 == 0 {
+			// several keys of one server in one query (events from before and after a key rotation)
+			ask[gomatrixserverlib.PublicKeyLookupRequest{ServerName: spec.ServerName(d.Server), KeyID: "ed25519:b"}] = 0
+			ask[gomatrixserverlib.PublicKeyLookupRequest{ServerName: spec.ServerName(d.Server), KeyID: "ed25519:old1"}] = 0
+		}
 	}
 	var got []gomatrixserverlib.ServerKeys
 	var err error
@@ -114,6 +126,21 @@ func c12ClientCheck(ctx *vfCtx, c c12ClientCase) {
 	if err != nil {
 		ctx.Fail("C12/key-client/lookup-failed", "LookupServerKeys failed on a well-formed answer of %d documents: %v", len(c.Docs), err)
 		return
+	}
+	// the notary is asked for every key the caller named (a notary answers for what it was asked)
+	for r := range ask {
+		if _, ok := asked[string(r.ServerName)][string(r.KeyID)]; !ok {
+			ctx.Fail("C12/key-client/key-not-asked-for", "LookupServerKeys was given %s / %s but the query the notary received does not name it: %v", r.ServerName, r.KeyID, asked)
+			return
+		}
+	}
+	for sn, ks := range asked {
+		for k := range ks {
+			if _, ok := ask[gomatrixserverlib.PublicKeyLookupRequest{ServerName: spec.ServerName(sn), KeyID: gomatrixserverlib.KeyID(k)}]; !ok {
+				ctx.Fail("C12/key-client/asked-for-a-key-nobody-named", "the query the notary received names %s / %s which the caller did not ask for", sn, k)
+				return
+			}
+		}
 	}
 	if len(got) != len(c.Docs) {
 		ctx.Fail("C12/key-client/document-count", "the server answered with %d key documents, LookupServerKeys returned %d", len(c.Docs), len(got))
